@@ -1,6 +1,7 @@
 package props
 
 import (
+	"strings"
 	"fmt"
 	"go/token"
 	"go/types"
@@ -311,6 +312,8 @@ func checkC08(c *core.Ctx, r *core.Report) {
 	r.Explanation = "C08 (metric datapoints stored bit-exactly), codec tables and bounds only: " +
 		"(1) BOUND — every bitWriter.writeBits(v, k) with constant k < 64 in the Gorilla compressor writes a value proven < 2^k by a sound interval analysis (constants, type ranges of conversions, phi joins, refinement by dominating comparisons), and every writeInt64Bits(x, n) lies under case guards lo <= x <= hi with lo >= -(2^(n-1)-1) and hi <= 2^(n-1), the asymmetric signed range the reader decodes; " +
 		"(2) TABLE — the timestamp prefix codes and payload widths written by compressTimestamp equal the case table of the reader's dodTimestampBitN, the value-header field widths written by compressValue equal those read by decompressValue, the first-delta width is the same constant on both sides, and the reader maps a 6-bit significant-bits field of 0 back to 64; " +
+		"(4) SIBLING — the leading-zero count compressValue keeps for the next value is the very value it writes into the 5-bit field; " +
+		"(5) HELD — the open compressor of a series is copied for a query only with the series lock held; " +
 		"(3) LIVE — a scratch bytes.Buffer that is declared outside a loop, filled inside it and Reset on some path of the iteration is Reset on every path to the next iteration (leftover bytes of one series would be decoded as part of the next)."
 	r.NotCovered = "TSID hashing and collisions, tags-tree contents, rotation/restart behaviour, the series-file layout, value equality in general"
 
@@ -541,6 +544,85 @@ func checkC08(c *core.Ctx, r *core.Report) {
 
 	// ---------------------------------------------------------------- (3) scratch buffers reset on every path
 	checkScratchBufferReset(c, r)
+
+	// ---------------------------------------------------------------- (4) the window the encoder remembers is the window it transmits
+	{
+		lzF := c.Field(pkgCompress, "Compressor.leadingZeros")
+		var stored []ssa.Value
+		var storeAt ssa.Instruction
+		for _, b := range compressVal.Blocks {
+			for _, in := range b.Instrs {
+				if st, ok := in.(*ssa.Store); ok {
+					if fa, ok := st.Addr.(*ssa.FieldAddr); ok && core.FieldOfAddr(fa) == lzF {
+						stored = append(stored, st.Val)
+						storeAt = st
+					}
+				}
+			}
+		}
+		var wire []ssa.Value
+		for _, call := range callsTo(compressVal, writeBits) {
+			if k, ok := core.ConstIntValue(call.Call.Args[2]); ok && k == 5 {
+				v := call.Call.Args[1]
+				if cv, ok := v.(*ssa.Convert); ok {
+					v = cv.X
+				}
+				wire = append(wire, v)
+			}
+		}
+		construct := "compress.Compressor.compressValue:remembered-window-equals-transmitted-window"
+		switch {
+		case len(stored) != 1 || len(wire) != 1:
+			r.Undecided("SIBLING", construct, c.Pos(compressVal.Pos()), fmt.Sprintf("expected one store of Compressor.leadingZeros and one 5-bit write, found %d and %d", len(stored), len(wire)))
+		case stored[0] != wire[0]:
+			r.Violation("SIBLING", construct, c.Pos(storeAt.Pos()), "the leading-zero count the encoder keeps for the next value is not the value it writes into the 5-bit field (e.g. kept before the clamp to 31, written after it): the decoder only knows the transmitted window, so the next value that reuses the window is written with fewer bits than the decoder reads and the rest of the series decodes to garbage")
+		default:
+			r.OK("SIBLING", construct, c.Pos(storeAt.Pos()), "the same value is stored in Compressor.leadingZeros and written into the 5-bit field")
+		}
+	}
+
+	// ---------------------------------------------------------------- (5) the open compressor of a series is read under the series lock
+	{
+		a := lockAnalysis(c)
+		clone := c.Obj(pkgCompress, "CloneCompressor")
+		compF := c.Field(pkgMetrics, "TimeSeries.compressor")
+		lockF := c.Field(pkgMetrics, "TimeSeries.lock")
+		n := 0
+		for _, fn := range c.RepoFunctions() {
+			if core.FnPkgPath(fn) != core.ModPath+"/"+pkgMetrics {
+				continue
+			}
+			for i, call := range callsTo(fn, clone) {
+				n++
+				// the series whose compressor is cloned
+				var series ssa.Value
+				for _, o := range c.Origins(call.Call.Args[0], 0) {
+					if o.Kind == "field" && o.Obj == types.Object(compF) {
+						if fa, ok := o.Val.(*ssa.FieldAddr); ok {
+							series = fa.X
+						}
+					}
+				}
+				construct := fmt.Sprintf("%s:CloneCompressor#%d-under-the-series-lock", shortFn(fn), i+1)
+				if series == nil {
+					r.Undecided("HELD", construct, c.Pos(call.Pos()), "the cloned compressor is not read from TimeSeries.compressor in this function")
+					continue
+				}
+				held := false
+				_ = lockF
+				if ff := a.Facts[fn]; ff != nil {
+					for _, h := range ff.MustAt[call] {
+						if strings.HasSuffix(h.Class.Name, "TimeSeries).lock") {
+							held = true
+						}
+					}
+				}
+				r.Check(held, "HELD", construct, c.Pos(call.Pos()), "TimeSeries.lock is held while the open compressor is copied",
+					"the open compressor of a series is copied without the series lock: ingest appends to it under that lock only, so the multi-step copy can be torn by a concurrent datapoint and the query returns value bits or timestamps that were never ingested")
+			}
+		}
+		r.Floor("HELD", "copies of an open series compressor", n, 1)
+	}
 }
 
 // checkScratchBufferReset: in the metrics writer/query packages, a *bytes.Buffer
